@@ -10,7 +10,7 @@
 
    [render M p sh s] is the text produced on rendering path [p] for the value with secret [s]
    held in container shape [sh]; [opaque] is the method table read from the Go source. *)
-From Verif Require Import Common.Base Generated.C14Opaque C14.Model C14.Proofs.
+From Verif Require Import Common.Base Generated.C14Opaque Generated.C14Tls C14.Model C14.Proofs C14.UseModel C14.UseProofs.
 From Coq Require Import String Ascii.
 Local Open Scope string_scope.
 
@@ -144,6 +144,69 @@ Proof. exact (fun M sh s => eq_refl). Qed.
 Theorem actual_use_identity : forall c s, use c s = s.
 Proof. exact use_identity_l. Qed.
 
+(* The header paths as functions from the configured map (an association list in ANY iteration
+   order) to what goes on the wire — C14/UseModel.v, by hand after headerRoundTripper.RoundTrip,
+   responseHeadersHandler and addHeadersIfAbsent (loops over a map: outside T1's subset), tied
+   by real HTTP / gRPC round trips.  For EVERY configured key — any case, "-bin" or not — the wire
+   value is the configured secret itself. *)
+Theorem http_client_header_is_secret : forall cfg host hdr k v,
+  In (k, v) cfg -> NoDup (ckeys cfg) ->
+  hget (snd (http_client_roundtrip cfg host hdr)) (canon_mime k) = Some v.
+Proof. exact client_header_l. Qed.
+
+Theorem http_client_host_is_secret : forall cfg host hdr v,
+  hget cfg "Host" = Some v -> v <> "" -> fst (http_client_roundtrip cfg host hdr) = v.
+Proof. exact client_host_l. Qed.
+
+Theorem http_client_host_default : forall cfg host hdr,
+  hget cfg "Host" = None \/ hget cfg "Host" = Some "" -> fst (http_client_roundtrip cfg host hdr) = host.
+Proof. exact client_host_default_l. Qed.
+
+Theorem http_response_header_is_secret : forall cfg h k v,
+  In (k, v) cfg -> NoDup (ckeys cfg) -> hget (http_response_headers cfg h) (canon_mime k) = Some v.
+Proof. exact response_header_l. Qed.
+
+(* headers nobody configured are left as they were *)
+Theorem http_other_headers_untouched : forall cfg h x, ~ In x (ckeys cfg) -> hget (http_set_all cfg h) x = hget h x.
+Proof. exact set_all_other. Qed.
+
+Theorem grpc_metadata_is_secret : forall cfg existing k v,
+  In (k, v) cfg -> NoDup (lkeys cfg) -> md_get existing (lower_s k) = [] ->
+  md_get (grpc_add_headers cfg existing) (lower_s k) = [v].
+Proof. exact grpc_sends_l. Qed.
+
+Theorem grpc_metadata_if_absent : forall cfg existing k,
+  NoDup (lkeys cfg) -> md_get existing (lower_s k) <> [] ->
+  md_get (grpc_add_headers cfg existing) (lower_s k) = md_get existing (lower_s k).
+Proof. exact grpc_keeps_l. Qed.
+
+(* configtls: the PEM fields, when they are the configured source, reach tls.X509KeyPair byte for
+   byte; and whatever the loader gets "from PEM" is the field *)
+Theorem tls_loader_gets_pem : forall c,
+  t_CertFile c = "" -> t_KeyFile c = "" -> t_CertPem c <> "" -> t_KeyPem c <> "" ->
+  load_certificate c = TlsPair (FromPem (t_CertPem c)) (FromPem (t_KeyPem c)).
+Proof. exact tls_pem_l. Qed.
+
+Theorem tls_loaded_pem_is_field : forall c cert key,
+  load_certificate c = TlsPair cert key ->
+  (forall b, cert = FromPem b -> b = t_CertPem c) /\ (forall b, key = FromPem b -> b = t_KeyPem c).
+Proof. exact tls_pem_only_l. Qed.
+
+(* OBLIGATIONS tying the hand-written presence predicates of Config.loadCertificate to the ones
+   translator T1 regenerates from configtls.go on every run (Generated/C14Tls.v) *)
+Theorem tls_pem_presence_is_generated : forall s,
+  tls_hasCertPem (Z.of_nat (String.length s)) = nonempty s /\
+  tls_hasKeyPem (Z.of_nat (String.length s)) = nonempty s /\
+  tls_hasCAPem (Z.of_nat (String.length s)) = nonempty s.
+Proof. exact tls_pem_present_l. Qed.
+
+Theorem tls_has_is_generated : forall a b,
+  tls_hasCert a b = (a || b) /\ tls_hasKey a b = (a || b) /\ tls_hasCA a b = (a || b).
+Proof. exact tls_has_l. Qed.
+
+Theorem load_certificate_is_generated : forall c, load_certificate c = load_certificate_gen c.
+Proof. exact load_certificate_gen_l. Qed.
+
 (* ---- "unmarshalling stores the secret unchanged" ----------------------------------------------
    FULL statement: forall u t, unmarshal opaque u t = Stored t (with pre-/-post around t for the
    inline expansion).  FALSE of the faithful model: findings C14-SQUASH-REMARSHAL
@@ -191,5 +254,17 @@ Print Assumptions unmarshal_stores_partial.
 Print Assumptions unmarshal_stores_refuted.
 Print Assumptions squash_unmarshaler_stores_marker.
 Print Assumptions actual_use_identity.
+Print Assumptions http_client_header_is_secret.
+Print Assumptions http_client_host_is_secret.
+Print Assumptions http_client_host_default.
+Print Assumptions http_response_header_is_secret.
+Print Assumptions http_other_headers_untouched.
+Print Assumptions grpc_metadata_is_secret.
+Print Assumptions grpc_metadata_if_absent.
+Print Assumptions tls_loader_gets_pem.
+Print Assumptions tls_loaded_pem_is_field.
+Print Assumptions tls_pem_presence_is_generated.
+Print Assumptions tls_has_is_generated.
+Print Assumptions load_certificate_is_generated.
 Print Assumptions unmarshal_inline_expansion.
 Print Assumptions expanded_pointer_gets_parsed_value.
